@@ -112,7 +112,7 @@ class Property(object):
         if text not in self.assumptions:
             self.assumptions.append(text)
 
-    def include(self, other, names):
+    def include(self, other, names, only=None):
         """a callee's contract that this property's checks assume (and that is proved under another property): its harnesses are
         run under this property too, so that a change which breaks the callee is reported here as the broken assumption"""
         src = REGISTRY.prop(other)
@@ -120,7 +120,8 @@ class Property(object):
         for h in list(src.harnesses):
             if h.name in names:
                 found.add(h.name)
-                self.harnesses.append(Harness(self, "assumed-contract(%s)/%s" % (other, h.name), h.fn, h.cases, h.opts))
+                cases = [c for c in h.cases if not only or h.name not in only or c in only[h.name]]
+                self.harnesses.append(Harness(self, "assumed-contract(%s)/%s" % (other, h.name), h.fn, cases, h.opts))
         missing = set(names) - found
         if missing:
             raise KeyError("include(%s): no harness named %s" % (other, sorted(missing)))
